@@ -1,7 +1,10 @@
+pub mod c07;
 pub mod c08;
 pub mod c09;
 pub mod c10;
 pub mod c11;
+pub mod c12;
+pub mod c13;
 pub mod c18;
 pub mod common;
 pub mod iff;
@@ -20,10 +23,13 @@ pub fn std_assumptions() -> Vec<String> {
 
 pub fn get(id: &str) -> Option<Box<dyn Check>> {
     match id {
+        "C07" => Some(Box::new(c07::C07)),
         "C08" => Some(Box::new(c08::C08)),
         "C09" => Some(Box::new(c09::C09)),
         "C10" => Some(Box::new(c10::C10)),
         "C11" => Some(Box::new(c11::C11)),
+        "C12" => Some(Box::new(c12::C12)),
+        "C13" => Some(Box::new(c13::C13)),
         "C18" => Some(Box::new(c18::C18)),
         _ => None,
     }
